@@ -539,11 +539,59 @@ def oracle_c16(world):
 # C07 peer-script: protocol-legal peer frame sequences x local actions x one connection event
 # =============================================================================================
 
+PEER_GRID_MAXLEN = 4
+PEER_GRID_BASE = 6  # size of the largest token alphabet
+
+
+def peer_grid_size():
+    return 12 * sum(PEER_GRID_BASE ** n for n in range(PEER_GRID_MAXLEN + 1))
+
+
+def _peer_grid_decode(idx):
+    """index -> (role, kind, requester_real, [token digits]): every sequence of up to PEER_GRID_MAXLEN peer frames over
+    the token alphabet of each (role, model, side) combination exactly once."""
+    idx %= peer_grid_size()
+    combo, rest = idx % 12, idx // 12
+    role = ('client', 'server')[combo % 2]
+    kind = ('rr', 'stream', 'channel')[(combo // 2) % 3]
+    requester_real = bool(combo // 6)
+    n = 0
+    while rest >= PEER_GRID_BASE ** n:
+        rest -= PEER_GRID_BASE ** n
+        n += 1
+    digits = []
+    for _ in range(n):
+        digits.append(rest % PEER_GRID_BASE)
+        rest //= PEER_GRID_BASE
+    return role, kind, requester_real, digits
+
+
+def gen_peer_script_grid(seed, opts=None):
+    opts = dict(opts or {})
+    idx = opts.get('grid_index', 0) * opts.get('grid_stride', 1)
+    role, kind, requester_real, digits = _peer_grid_decode(idx)
+    plan = gen_peer_script(seed, dict(opts, forced={'role': role, 'kind': kind, 'requester_real': requester_real, 'toks': digits}))
+    plan['profile'] = 'peer-script-grid'
+    plan['grid_point'] = {'role': role, 'kind': kind, 'requester_real': requester_real, 'toks': digits}
+    return plan
+
+
 def gen_peer_script(seed, opts=None):
     rng = random.Random(seed ^ 0xC07C07)
+    forced = (opts or {}).get('forced')
     endpoint_role = _pick(rng, [(3, 'client'), (2, 'server')])  # the REAL endpoint
     kind = _pick(rng, [(2, 'rr'), (3, 'stream'), (4, 'channel')])
     requester_real = rng.random() < 0.6
+    toks = None
+    if forced:
+        endpoint_role, kind, requester_real, toks = forced['role'], forced['kind'], forced['requester_real'], list(forced['toks'])
+
+    def pick_tok(options):
+        """seeded choice, or - in the enumeration - the next digit of the grid point (modulo the alphabet at hand)"""
+        if toks is None:
+            return _pick(rng, options)
+        return options[toks.pop(0) % len(options)][1]
+
     # who opens the stream: the real endpoint (requester_real) or the peer
     if requester_real:
         sid = 1 if endpoint_role == 'client' else 2
@@ -560,6 +608,8 @@ def gen_peer_script(seed, opts=None):
     if endpoint_role == 'server':
         script.append({'at': 0.0, 'frame': {'t': 'SETUP', 'keepalive_ms': 10_000_000, 'lifetime_ms': 20_000_000}})
     n_frames = rng.randint(0, 6)
+    if forced:
+        n_frames = len(toks)
 
     def payload_spec(idx, nxt=True, complete=False):
         d = app.content(0, 'r' if requester_real else 'c', idx, 'D', rng.randint(1, 40)) if nxt else b''
@@ -574,13 +624,13 @@ def gen_peer_script(seed, opts=None):
             if kind == 'rr':
                 if terminal_sent:
                     break
-                tok = _pick(rng, [(3, 'next_complete'), (2, 'next'), (1, 'complete'), (2, 'error')])
+                tok = pick_tok([(3, 'next_complete'), (2, 'next'), (1, 'complete'), (2, 'error')])
             elif kind == 'stream':
                 if terminal_sent:
                     break
-                tok = _pick(rng, [(4, 'next'), (1, 'next_complete'), (1, 'complete'), (1, 'error')])
+                tok = pick_tok([(4, 'next'), (1, 'next_complete'), (1, 'complete'), (1, 'error')])
             else:
-                tok = _pick(rng, [(4, 'next'), (1, 'next_complete'), (1, 'complete'), (1, 'error'), (2, 'request_n'), (1, 'cancel')])
+                tok = pick_tok([(4, 'next'), (1, 'next_complete'), (1, 'complete'), (1, 'error'), (2, 'request_n'), (1, 'cancel')])
                 if terminal_sent and tok in ('next', 'next_complete', 'complete', 'error'):
                     tok = 'request_n'
             if tok == 'next':
@@ -633,7 +683,7 @@ def gen_peer_script(seed, opts=None):
             opts_ = [(3, 'request_n'), (1, 'cancel')] if kind != 'rr' else [(1, 'cancel')]
             if kind == 'channel' and not done_sending:
                 opts_ += [(3, 'next'), (1, 'next_complete'), (1, 'complete'), (1, 'error')]
-            tok = _pick(rng, opts_)
+            tok = pick_tok(opts_)
             if tok == 'request_n':
                 frames.append({'t': 'REQUEST_N', 'sid': sid, 'n': rng.randint(1, 5)})
             elif tok == 'cancel':
